@@ -604,7 +604,7 @@ def self_state_writes(cx: Cx, cls_q: str, ob_id: str) -> list[tuple[FunctionInfo
             continue
         if cx.S.inlinable(m) and _has_caller(cx, m):
             continue  # a helper unknown to the rules: its writes are attributed to its callers (inlined)
-        s = cx.summary(m, ob_id)
+        s = cx.summary(m, ob_id, full=True)  # who writes state holds for every call
         me = ("param", m.self_name)
         for ev, ctx in s.walk():
             if ev.kind == "store":
